@@ -4,7 +4,7 @@ from __future__ import annotations
 import ast
 import re
 
-from ..core.absint import AV, Alt, App, Const, EnumM, ListV, Obj, Outcome, Rep, State, StrT, Sym, walk_av
+from ..core.absint import AV, Alt, App, Const, EnumM, ListV, Obj, Outcome, Rep, State, StrT, Sym, holes, walk_av
 from ..core.ctx import GEN, GENSTUBS, GHELPER, Ctx
 from ..core.report import Collector
 from ..core.source import AnalysisError
@@ -31,6 +31,8 @@ def pipeline_of(h: AV) -> tuple[tuple, AV]:
 def check(ctx: Ctx, col: Collector, tier: str) -> None:
     repo = ctx.repo
     col.spec("C09.OFF-IDENTITY", "with naming conversion off every identifier is emitted verbatim", "specialisation of the conversion function for the PYTHON convention", floor=2)
+    col.spec("C09.CONVERT-SHAPE", "class names are rendered in UpperCamelCase and all other names in lowerCamelCase: the converter capitalises every part (all but the first for non-class names) "
+             "and leaves only '_' untouched", "symbolic result of the conversion function per mode: identity exits and capitalisation of the joined parts", floor=4)
     col.spec("C09.FLAG-SLICE", "nothing else in the stubs changes with the flag", "forward slice of convert_identifiers / naming_convention", floor=15)
     col.spec("C09.ANNOT-IFF-DIFF", "a Python-name / Python-module annotation carrying the original is attached exactly when the rendered name differs",
              "per-path comparison of the annotation hole with the fact 'converted == original' at every declaration site", floor=9)
@@ -49,6 +51,36 @@ def check(ctx: Ctx, col: Collector, tier: str) -> None:
         key = f"{GHELPER}::{CONV}::PYTHON,is_class_name={icn}"
         (col.ok if good else col.bad)("C09.OFF-IDENTITY", key, repo.loc(GHELPER, cfi.node), f"{[(o.kind, repr(o.value)[:60]) for o in outs]}",
                                       *([] if good else ["with the PYTHON convention the conversion does not return its argument unchanged on every path"]))
+
+    # ------------------------------------------------------------------ CONVERT-SHAPE
+    for icn in (True, False):
+        outs = ctx.interp(cfi).run_function(cfi, {"name": Sym("name"), "naming_convention": EnumM(NC, "SAFE_DS"), "is_class_name": Const(icn)})
+        rets = [o for o in outs if o.kind == "return"]
+        # (1) the only name that leaves the conversion untouched is "_" (it has no letter to capitalise)
+        verbatim = [o for o in rets if o.value == Sym("name") or (isinstance(o.value, Const) and not any(v and k in ("'_'==<name>", "<name>=='_'") for k, v in o.facts))]
+        key = f"{GHELPER}::{CONV}::SAFE_DS,is_class_name={icn}::identity-exits"
+        if verbatim or len(rets) != len(outs):
+            col.bad("C09.CONVERT-SHAPE", key, repo.loc(GHELPER, cfi.node), f"{[(repr(o.value)[:40], fmt_facts(o.facts)[:80]) for o in verbatim][:3]}",
+                    f"with naming conversion on, {CONV}(is_class_name={icn}) returns its argument unchanged on a path that has not established name == '_' "
+                    f"({fmt_facts(verbatim[0].facts)[:100] if verbatim else 'raise'}): such names keep their Python spelling (e.g. a one-letter class stays lower case)")
+        else:
+            col.ok("C09.CONVERT-SHAPE", key, repo.loc(GHELPER, cfi.node), f"{len(rets)} paths; the only verbatim return is under name == '_'")
+        # (2) every '_'-separated part is capitalised, except the first part of a non-class name
+        shape_bad = []
+        for o in rets:
+            if isinstance(o.value, Const):
+                continue
+            hs = holes(o.value)
+            raw = [h for h in hs if not any(isinstance(x, App) and x.func == ".upper" for x in walk_av(h))]
+            want_raw = 0 if icn else 1
+            if len(raw) != want_raw or not hs:
+                shape_bad.append((render(o.value)[:80], len(raw)))
+        key = f"{GHELPER}::{CONV}::SAFE_DS,is_class_name={icn}::parts-capitalised"
+        if shape_bad:
+            col.bad("C09.CONVERT-SHAPE", key, repo.loc(GHELPER, cfi.node), f"{shape_bad[:2]}",
+                    f"{CONV}(is_class_name={icn}): the converted name has {shape_bad[0][1]} part(s) that are not capitalised; {'UpperCamelCase capitalises every part' if icn else 'lowerCamelCase keeps exactly the first part'}")
+        else:
+            col.ok("C09.CONVERT-SHAPE", key, repo.loc(GHELPER, cfi.node), "every part is joined with its first character upper-cased" + ("" if icn else ", the first part is kept"))
 
     # ------------------------------------------------------------------ FLAG-SLICE
     gm = repo.module(GEN)
